@@ -411,7 +411,15 @@ pub fn history(cfg: &Cfg, rep: &mut Report, h: u64, steps: usize, mode: Mode, of
                     _ => false,
                 };
                 rep.case(format!("off={offset}/{}/{vclass}/{}/inexact={inexact}/{}", op.name(), amount_class(q), tag(&got)));
-                rep.check("ref", got.is_ok() == want_ok, &format!("C05/ref/{site}/outcome"), || {
+                // Close to i128::MAX which call must fail depends on the intermediate sums an
+                // implementation happens to form (S + 10^offset, A + 1, balance + amount); there only
+                // the successful calls are judged (movements, rounding, previews below).
+                let big = |x: i128| x >= 1i128 << 125;
+                let fragile = big(a_tot) || big(s_tot) || big(q) || pre.assets.iter().any(|x| big(*x)) || pre.shares.iter().any(|x| big(*x));
+                if fragile {
+                    rep.count("outcome_not_judged_near_i128_max");
+                }
+                rep.check("ref", fragile || got.is_ok() == want_ok, &format!("C05/ref/{site}/outcome"), || {
                     format!("{op:?} with A={a_tot} S={s_tot} offset={offset}: exact model predicts {predicted:?}, contract answered {got:?}; state {pre:?}")
                 });
             }
